@@ -127,6 +127,19 @@ func vfLeft(d string) string {
 	return r
 }
 
+// vfLeftSettled: goroutines of the UPF that are still there after Stop. Goroutines that have been released take a moment to
+// return (longer on a busy machine): a goroutine counts as left only if it is still there after five seconds.
+func vfLeftSettled() string {
+	left := ""
+	for t := time.Now(); time.Since(t) < 5*time.Second; {
+		if left = vfLeft(vfDump()); left == "" {
+			return ""
+		}
+		time.Sleep(20 * time.Millisecond)
+	}
+	return left
+}
+
 func vfFirstFrames(g string) string {
 	ls := strings.Split(g, "\n")
 	var out []string
@@ -289,13 +302,10 @@ func vfRunScenario(t *testing.T, k int, s vfScen) vfScenOut {
 			o.Stopped = false
 			o.Fatal = "Stop right after Start: " + err.Error()
 			_, o.Dump = vfBlockedSig(vfDump())
-		} else {
-			time.Sleep(30 * time.Millisecond)
-			if left := vfLeft(vfDump()); left != "" {
-				o.Stopped = false
-				o.Dump = left
-				o.Fatal = "Stop right after Start returned, but goroutines of the UPF are still alive (the server keeps serving)"
-			}
+		} else if left := vfLeftSettled(); left != "" {
+			o.Stopped = false
+			o.Dump = left
+			o.Fatal = "Stop right after Start returned, but goroutines of the UPF are still alive (the server keeps serving)"
 		}
 		o.WallMs = int(time.Since(t0) / time.Millisecond)
 		return o
@@ -311,9 +321,19 @@ func vfRunScenario(t *testing.T, k int, s vfScen) vfScenOut {
 			dl = 15 * time.Second
 		}
 		if _, ok := en.call("p2", vfEvent{T: "hb"}, dl); !ok {
-			o.Answered = false
 			d := vfDump()
-			o.Sig, o.Dump = vfBlockedSig(d)
+			sig, dump := vfBlockedSig(d)
+			if sig == "other" || sig == "" {
+				// no answer within the deadline, but no blocked cycle in the goroutine dump either: a slow (busy) machine is not a
+				// wedged UPF. It gets six more deadlines; only a UPF that stays silent that long has stopped making progress.
+				if _, ok2 := en.call("p2", vfEvent{T: "hb"}, 6*dl); ok2 {
+					return
+				}
+				d = vfDump()
+				sig, dump = vfBlockedSig(d)
+			}
+			o.Answered = false
+			o.Sig, o.Dump = sig, dump
 			if len(o.Dump) > 3000 {
 				o.Dump = o.Dump[:3000]
 			}
@@ -405,8 +425,7 @@ func vfRunScenario(t *testing.T, k int, s vfScen) vfScenOut {
 	}
 	if o.Stopped && o.Answered {
 		// everything of go-upf must be gone: timer callbacks, report producers, tickers
-		time.Sleep(30 * time.Millisecond)
-		if left := vfLeft(vfDump()); left != "" {
+		if left := vfLeftSettled(); left != "" {
 			o.Stopped = false
 			o.Dump = left
 			if o.Fatal == "" {
@@ -502,14 +521,14 @@ func vfRetain(en *vfStressEnv, s *vfScen, o *vfScenOut) {
 	// only: long after it, a Heartbeat Request with that number from the same socket is a new request and is answered
 	seq2 := seq + 1
 	en.send("p1", vfEvent{T: "est", Node: "n4", CP: "9", Peer: "p1", Seq: seq2})
-	time.Sleep(W * 15 / 10)
+	time.Sleep(W * 3) // three windows: the retention timer has fired also on a very busy machine
 	hbAnswered := false
 	{
 		e := vfEvent{T: "hb", Peer: "p1", Seq: seq2}
 		en.send("p1", e)
 		c := en.nw.conns["p1"]
 		buf := make([]byte, 65536)
-		for t := time.Now(); time.Since(t) < 2*time.Second; {
+		for t := time.Now(); time.Since(t) < 8*time.Second; {
 			_ = c.SetReadDeadline(time.Now().Add(20 * time.Millisecond))
 			n, _, err := c.ReadFromUDP(buf)
 			if err == nil && n >= 8 && buf[1] == 2 && int(buf[4])<<16|int(buf[5])<<8|int(buf[6]) == seq2 {
@@ -536,7 +555,7 @@ func vfRetain(en *vfStressEnv, s *vfScen, o *vfScenOut) {
 	exchange(req(52, seq3))
 	late3 := time.Since(tR3)
 	c5 := vfCreates(en.st.k, &log, seid, 52)
-	o.Note = fmt.Sprintf("W=%v creates(R1)=%d creates(R2)=%d after-duplicate=%d duplicate-answered=%v %v after R2; heartbeat re-using the number of an unanswered request 1.5 W later answered=%v; request after an unhandled message type with its number: creates %d, after its duplicate %v later: %d",
+	o.Note = fmt.Sprintf("W=%v creates(R1)=%d creates(R2)=%d after-duplicate=%d duplicate-answered=%v %v after R2; heartbeat re-using the number of an unanswered request 3 W later answered=%v; request after an unhandled message type with its number: creates %d, after its duplicate %v later: %d",
 		W, c1, c2, c3, okd, late, hbAnswered, c4, late3, c5)
 	if c4 == 1 && c5 > 1 && late3 < W*95/100 {
 		o.Bad = "C06:a duplicate inside the retention window was executed again after a message of an unhandled type had used the sequence number (real timers)"
@@ -595,7 +614,19 @@ func vfTxStall(en *vfStressEnv, s *vfScen, o *vfScenOut) {
 	copies := map[int]int{}
 	c := en.nw.conns["p1"]
 	buf := make([]byte, 65536)
-	for t := time.Now(); time.Since(t) < 5*time.Second; {
+	allTwice := func() bool {
+		if len(copies) < n {
+			return false
+		}
+		for _, v := range copies {
+			if v < 2 {
+				return false
+			}
+		}
+		return true
+	}
+	// at least 5 s (a third copy would show), at most 20 s (a busy machine gets the time it needs before "only once" counts)
+	for t := time.Now(); time.Since(t) < 20*time.Second && !(time.Since(t) > 5*time.Second && allTwice()); {
 		_ = c.SetReadDeadline(time.Now().Add(50 * time.Millisecond))
 		k, _, err := c.ReadFromUDP(buf)
 		if err == nil && k >= 16 && buf[1] == 56 {
@@ -809,10 +840,10 @@ func vfTickFail(en *vfStressEnv, s *vfScen, o *vfScenOut) {
 	during := count(1800 * time.Millisecond)
 	after := 0
 	if atomic.LoadInt32(&failed) == 1 {
-		after = count(4500 * time.Millisecond)
+		after = count(8 * time.Second)
 	}
 	st.k.SetLocked(func() { st.k.Fail = nil })
-	o.Note = fmt.Sprintf("periodic reports: %d before, %d around the failing query, %d in the 4.5 s after it (query failed: %v)", before, during, after, failed == 1)
+	o.Note = fmt.Sprintf("periodic reports: %d before, %d around the failing query, %d in the 8 s after it (query failed: %v)", before, during, after, failed == 1)
 	if before >= 1 && failed == 1 && after == 0 {
 		o.Bad = "C15:after one failed multi-report query the period never ticked again: registered URRs are no longer queried (real tickers)"
 	}
@@ -872,7 +903,7 @@ func vfConcurrent(en *vfStressEnv, s *vfScen, o *vfScenOut) {
 		}
 	}()
 	stopTicks := make(chan struct{}) // tickers are stopped by the periodic server itself before it closes
-	var tickWg sync.WaitGroup
+	var tickMu sync.RWMutex          // producers inject ticks under RLock; Stop waits for those in flight by taking the write lock
 	var emitted int64
 	// SMF traffic
 	for i := 0; i < s.Smfs; i++ {
@@ -942,14 +973,15 @@ func vfConcurrent(en *vfStressEnv, s *vfScen, o *vfScenOut) {
 				}
 				switch {
 				case p%4 == 3:
+					tickMu.RLock()
 					select {
 					case <-stopTicks:
+						tickMu.RUnlock()
 						return
 					default:
 					}
-					tickWg.Add(1)
 					st.ps.VerifTick(10 * time.Second)
-					tickWg.Done()
+					tickMu.RUnlock()
 				case p%4 == 2:
 					_, _ = st.k.EmitReports([][3]uint64{{1, 1, 2}, {uint64(2 + r.Intn(5)), 1, 2}})
 				default:
@@ -964,7 +996,8 @@ func vfConcurrent(en *vfStressEnv, s *vfScen, o *vfScenOut) {
 		time.Sleep(time.Duration(s.RunMs) * time.Millisecond)
 		// Stop while everything is in flight; the kernel-side producers keep going for a moment, as in production
 		close(stopTicks)
-		tickWg.Wait()
+		tickMu.Lock() // every tick injection that had begun is through; later ones see stopTicks
+		tickMu.Unlock()
 		err := st.stop(15 * time.Second)
 		close(stopAll)
 		wg.Wait()
@@ -991,8 +1024,19 @@ func vfConcurrent(en *vfStressEnv, s *vfScen, o *vfScenOut) {
 	wg.Wait()
 	st.mcSync(20 * time.Second)
 	st.psSync(20 * time.Second)
-	time.Sleep(300 * time.Millisecond)
 	o.Emitted = int(atomic.LoadInt64(&emitted))
+	// every emitted notification has been handed to the loop; its report request still has to travel through the loop and
+	// the SMF's socket to the counting goroutine: wait for the count (no verdict from a fixed pause on a busy machine)
+	for t := time.Now(); time.Since(t) < 20*time.Second; {
+		seenMu.Lock()
+		n := len(seen)
+		seenMu.Unlock()
+		if n >= o.Emitted {
+			break
+		}
+		time.Sleep(20 * time.Millisecond)
+	}
+	time.Sleep(100 * time.Millisecond) // a duplicate would have to show now
 	close(respStop)
 	<-respDone
 	// retransmissions (millisecond timers) repeat a sequence number; distinct notifications have distinct numbers
